@@ -611,9 +611,9 @@ class _Run:
 		for _ in range(start):
 			L.h_advance()
 		self.pos = start
-		if L.state[0] != start or any(L.state[1:26]):
-			self.bad("C08.ring-corrupt", why="ring not empty / not at the start position after init",
-				cur_bucket=L.state[0], want=start)
+		if L.state[26] or any(L.state[1:26]):
+			self.bad("C08.ring-corrupt", why="ring not empty after init and %d advances" % start,
+				occupancy=list(L.state[1:26]))
 			return
 		for i, op in enumerate(self.plan.get("ops", [])[:MAX_OPS]):
 			self.opidx = i
